@@ -440,9 +440,9 @@ def drive(a, prop, tier, cdir, plain, outdir, need_race, log, t0):
 
 
 EXPECTED_PROBES = {
-    "C01": ["cancel-during-send", "concurrent-reregistration", "history.failed-reregistration"],
-    "C02": ["cancel-during-send"],
-    "C03": ["cancel-during-send", "node.stalled", "node.nested-send"],
+    "C01": ["cancel-during-send", "concurrent-reregistration", "history.failed-reregistration", "history.wide-event-type"],
+    "C02": ["cancel-during-send", "history.wide-event-type"],
+    "C03": ["cancel-during-send", "node.stalled", "node.nested-send", "node.nested-send-same-type"],
     "C08": ["fs.external-rename", "fs.crashed", "fs.rotated"],
     "C06": ["enum.exhausted"],
     "C11": ["gate.expired-group", "gate.flushall-many-groups", "enum.exhausted", "gate.broker-field-changed"],
@@ -451,8 +451,8 @@ EXPECTED_PROBES = {
     "C14": ["json.unencodable"],
     "C15": ["fs.model-rotation", "fs.external-rename"],
     "C16": ["encrypt.rotated"],
-    "C17": ["gate.expired-group", "gate.flushall-many-groups", "enum.exhausted", "gate.broker-field-changed", "gate.backlog-run"],
-    "C18": ["ce.signer-failed", "ce.signed"],
+    "C17": ["gate.expired-group", "gate.flushall-many-groups", "enum.exhausted", "gate.broker-field-changed", "gate.backlog-run", "gate.reopened"],
+    "C18": ["ce.signer-failed", "ce.signed", "ce.signer-panicked"],
 }
 
 
